@@ -42,14 +42,16 @@ Fixpoint early_approval (cfg : pcfg) (p : pair) (ls : list label) : bool :=
       || early_approval cfg (pstep_or_stay cfg p l) r
   end.
 
-(* did every timer expiry of the script only send a prolongation request (the pending server's
-   timer while waiting is allowed)?  Then no handshake timer "ran out" in the sense of C03. *)
-Fixpoint only_prolong_expiries (cfg : pcfg) (p : pair) (ls : list label) : bool :=
+(* was every timer expiry of the script one that does not count as "a handshake timer ran out"
+   in the sense of C03's first sentence: a timely one (nothing else could happen and the user, if
+   any, had acted) or a prolongation expiry of the pending server (patient mode)?  Racing
+   expiries (PairArb.v) are not: after one of them only agreement is demanded, not success. *)
+Fixpoint benign_expiries (cfg : pcfg) (p : pair) (ls : list label) : bool :=
   match ls with
   | [] => true
   | l :: r =>
-      (negb (is_timeout l) || prolong_expiry cfg p l)
-      && only_prolong_expiries cfg (pstep_or_stay cfg p l) r
+      (negb (is_timeout l) || prolong_expiry cfg p l || negb (busy false cfg p))
+      && benign_expiries cfg (pstep_or_stay cfg p l) r
   end.
 
 Definition V_PAIR_APPROVED_EARLY_FAILED : N := 70.
@@ -86,18 +88,18 @@ Definition pair_monitor (c : pair_case) : codes :=
       (if (o_compc o || o_comps o) && cancel_in_hello cfg (pair_init cfg) (pc_labels c) then [V_PAIR_COMPLETED_AFTER_CANCEL] else []))
       (pc_sums c) in
   let over := match timely_next false cfg (final_pair cfg (pc_labels c)) with [] => true | _ => false end in
-  (* the implementation's own last summary says both sides have ended with nothing under way,
-     and no timer ran out on the way: the run is over whatever the model thinks *)
+  (* the implementation's own last summary says both sides have ended with nothing under way:
+     the run is over whatever the model thinks *)
+  let benign := benign_expiries cfg (pair_init cfg) (pc_labels c) in
   let impl_ended (o : psum) :=
-    sum_both_ended o && match o_qcs o, o_qsc o with [], [] => true | _, _ => false end
-    && only_prolong_expiries cfg (pair_init cfg) (pc_labels c) in
+    sum_both_ended o && match o_qcs o, o_qsc o with [], [] => true | _, _ => false end in
   let outcome :=
     match rev (pc_sums c) with
     | [] => []
     | o :: _ =>
         if negb (over || impl_ended o) then [] else
         (if sum_both_complete_open o || sum_both_ended o then [] else [V_PAIR_DISAGREE]) ++
-        (if implb (must_succeed cfg) (sum_both_complete_open o) then []
+        (if negb benign || implb (must_succeed cfg) (sum_both_complete_open o) then []
          else if early_approval cfg (pair_init cfg) (pc_labels c) then [V_PAIR_APPROVED_EARLY_FAILED]
               else [V_PAIR_SHOULD_COMPLETE]) ++
         (if implb (must_fail cfg) (sum_both_ended o && negb (o_compc o) && negb (o_comps o)) then [] else [V_PAIR_SHOULD_NOT_COMPLETE])
